@@ -286,6 +286,18 @@ func blockedGoroutines() string {
 			break
 		}
 	}
+	if len(out) == 0 {
+		// none of the code under test: a goroutine of the harness itself is stuck; show them all
+		for _, g := range strings.Split(string(buf[:n]), "\n\n") {
+			if strings.Contains(g, "synctest bubble") {
+				lines := strings.Split(g, "\n")
+				if len(lines) > 12 {
+					lines = lines[:12]
+				}
+				out = append(out, strings.Join(lines, "\n"))
+			}
+		}
+	}
 	return strings.Join(out, "\n\n")
 }
 
